@@ -21,8 +21,17 @@ pub fn hex(b: &[u8]) -> String {
 
 /// Read+Write transport for the blocking connection: scripted read segments, captured writes.
 pub struct Pipe { pub segs: Vec<Vec<u8>>, pub next: usize, pub out: Vec<u8>, pub reads: usize }
+/// index of the read call (0-based, counted per process) that fails once with ErrorKind::Interrupted; usize::MAX = never
+pub static INTERRUPT_AT: std::sync::atomic::AtomicUsize = std::sync::atomic::AtomicUsize::new(usize::MAX);
+pub static READ_CALLS: std::sync::atomic::AtomicUsize = std::sync::atomic::AtomicUsize::new(0);
+pub fn interrupted_now() -> bool {
+    use std::sync::atomic::Ordering::SeqCst;
+    let k = READ_CALLS.fetch_add(1, SeqCst);
+    k == INTERRUPT_AT.load(SeqCst)
+}
 impl Read for Pipe {
     fn read(&mut self, buf: &mut [u8]) -> io::Result<usize> {
+        if interrupted_now() { return Err(io::Error::new(io::ErrorKind::Interrupted, "interrupted system call")); }
         self.reads += 1;
         if self.next >= self.segs.len() { return Ok(0); }
         let seg = &mut self.segs[self.next];
